@@ -8,6 +8,7 @@
 mod big;
 mod engine;
 mod gen;
+mod gen_text;
 mod model;
 mod mv;
 mod opts;
